@@ -867,7 +867,7 @@ ENGINE_TEXT = {
     "kv": "real crux_kv calls (capability + command API; Core and bincode Bridge hosts) vs M.Kv (Lean), oracle S.Kv",
     "conv": "differential driver for crux_time::protocol conversions (Rust) vs M.Conv (Lean), oracle S.Conv",
 }
-HOOK_COMMITS = []
+HOOK_COMMITS = ["3b3ccf0", "fd94595", "1055c0e", "261bd7a"]
 
 # Only these are listed in MANIFEST.json as claimed (the lead adds an id here once its check has been reviewed and passes).
 CLAIMED = ["C01", "C02", "C03", "C04", "C05", "C06", "C07", "C09", "C12", "C13", "C16", "C17", "C19"]
